@@ -82,12 +82,12 @@ CHECKS = {
 
  "C11": ("runtime monitoring: failure tap (repository hook H1: every exception the orchestrator swallows, self-tested each run with an injected rule failure), process monitor (exit status, signals, tracebacks, faulthandler), watchdog with confirmation run, and sibling-result comparison, over mutated and blown-up inputs placed among healthy files",
          "Held on the executions observed: 19 byte-level/grammar-aware mutators applied 1-4 in sequence to repository sources, trigger files and generated programs in py/ts/js/rs; nesting/length blow-ups of six kinds at four depths; 10^3-10^4 functions; unknown extensions; every registered rule runs on every offending file (lint_directory), CLI layer sampled over commands/formats/--parallel; evidence counts mutator classes, swallowed events and sibling comparisons.",
-         "Trusted: hook H1 (self-tested); sibling comparison excludes cross-file rules; TypeScript DRY analysis is quadratic, so the many-functions case is capped at 300 functions for ts/js (slow is not a hang).",
+         "Trusted: hook H1 (self-tested); the repository's own test suite is run as a second workload under the tap (no scenario may end in a swallowed exception); sibling comparison excludes cross-file rules except for offenders CPython cannot parse; TypeScript DRY analysis is quadratic, so the many-functions case is capped at 300 functions for ts/js (slow is not a hang).",
          "DESIGN.md section 4 C11"),
 
  "C12": ("runtime monitoring: location contract on every reported violation at the CLI boundary (file in run, line in range, byte column in line), an icontract postcondition on the real Orchestrator.lint_file inside the running process (evaluation-counted), and a construct-on-line oracle with generator ground truth",
          "Held on the executions observed: nesting / literal / class / Rust-call / multi-line-construct generators and the trigger project under layout variation (0-400 leading lines, CRLF, no final newline, indentation, decorators, multi-line headers and calls) for all commands; evidence counts violations inspected, constructs checked per family and contract evaluations.",
-         "Trusted: generator facts (header lines, literal lines, call spans); columns are byte offsets; syntax-error notices and file-placement are exempt.",
+         "Trusted: generator facts (header lines, literal lines, call spans); the same contract (plus the ground-truth-free part of the construct-on-line oracle) also observes every lint_file call of the repository's own test suite via a pytest plugin; columns are byte offsets; syntax-error notices and file-placement are exempt.",
          "DESIGN.md section 4 C12"),
 
  "C13": ("runtime monitoring: base run vs edited run (sequence of 1-4 meaning-preserving edits) of the relevant commands; metamorphic oracle on (rule, file, mapped line, message*) multisets, columns included when the edit leaves indentation and line 1 alone",
